@@ -41,7 +41,8 @@ def _expect(cond, msg):
 
 def _cg_writer_shape(wr: ast.AST) -> dict:
     """The parent-encoding `if len(entry.parents) == k … else …` ladder of CommitGraph.write_to_file:
-    for each branch which parent indices are looked up and what the default of the lookup is."""
+    for each branch how the two slots are filled: ("const", NAME) | ("lookup", i) = parent_pos(entry, entry.parents[i])
+    | ("edges",) = GRAPH_EXTRA_EDGES_NEEDED | len(extra_edges)."""
     ladder = None
     for n in ast.walk(wr):
         if isinstance(n, ast.If) and isinstance(n.test, ast.Compare) and isinstance(n.test.left, ast.Call) \
@@ -63,25 +64,26 @@ def _cg_writer_shape(wr: ast.AST) -> dict:
             break
 
     def slots(body):
-        got = {}
+        got, rest = {}, []
         for st in body:
             if isinstance(st, ast.Assign) and isinstance(st.targets[0], ast.Name) and st.targets[0].id in ("parent1_pos", "parent2_pos"):
                 v = st.value
                 if isinstance(v, ast.Name):
                     got[st.targets[0].id] = ("const", v.id)
-                elif isinstance(v, ast.Call) and ast.unparse(v.func) == "oid_to_index.get":
-                    idx = v.args[0]
-                    _expect(isinstance(idx, ast.Subscript) and ast.unparse(idx.value) == "entry.parents",
-                            f"write_to_file: unexpected lookup key {ast.unparse(idx)}")
-                    got[st.targets[0].id] = ("lookup", T.eval_literal(idx.slice), ast.unparse(v.args[1]))
+                elif isinstance(v, ast.Call) and ast.unparse(v.func) == "parent_pos":
+                    _expect(len(v.args) == 2 and ast.unparse(v.args[0]) == "entry" and isinstance(v.args[1], ast.Subscript)
+                            and ast.unparse(v.args[1].value) == "entry.parents",
+                            f"write_to_file: unexpected lookup {ast.unparse(v)}")
+                    got[st.targets[0].id] = ("lookup", T.eval_literal(v.args[1].slice))
+                elif ast.unparse(v) == "GRAPH_EXTRA_EDGES_NEEDED | len(extra_edges)":
+                    got[st.targets[0].id] = ("edges",)
                 else:
                     raise T.TranslateError(f"write_to_file: unexpected parent slot value {ast.unparse(v)}")
+            else:
+                rest.append(ast.unparse(st))
         _expect(set(got) == {"parent1_pos", "parent2_pos"}, f"write_to_file: branch does not set both slots: {got}")
-        return got["parent1_pos"], got["parent2_pos"]
-    shape = {}
-    for k, body in branches:
-        shape[k] = slots(body)
-    return shape
+        return got["parent1_pos"], got["parent2_pos"], rest
+    return {k: slots(body) for k, body in branches}
 
 
 def translate(repo: Path) -> dict:
@@ -94,25 +96,40 @@ def translate(repo: Path) -> dict:
     shape = _cg_writer_shape(wr)
     _expect(set(shape) == {0, 1, 2, "else"}, f"write_to_file: parent ladder has branches {sorted(map(str, shape))}")
     miss = ("const", "GRAPH_PARENT_MISSING")
-    _expect(shape[0] == (miss, miss), f"write_to_file: 0-parent branch is {shape[0]}")
-    _expect(shape[1] == (("lookup", 0, "GRAPH_PARENT_MISSING"), miss), f"write_to_file: 1-parent branch is {shape[1]}")
-    _expect(shape[2] == (("lookup", 0, "GRAPH_PARENT_MISSING"), ("lookup", 1, "GRAPH_PARENT_MISSING")),
-            f"write_to_file: 2-parent branch is {shape[2]}")
-    # the >2-parent branch as coded: which two parents are stored (the model's `octopusSlots`)
+    _expect(shape[0] == (miss, miss, []), f"write_to_file: 0-parent branch is {shape[0]}")
+    _expect(shape[1] == (("lookup", 0), miss, []), f"write_to_file: 1-parent branch is {shape[1]}")
+    _expect(shape[2] == (("lookup", 0), ("lookup", 1), []), f"write_to_file: 2-parent branch is {shape[2]}")
+    # the >2-parent branch: first parent in slot 1, slot 2 points into the extra edge list which receives all
+    # parents but the first, the last one flagged
     oc = shape["else"]
-    _expect(all(s[0] == "lookup" and s[2] == "GRAPH_PARENT_MISSING" for s in oc),
-            f"write_to_file: >2-parent branch is {oc} (the model knows only 'store two looked-up parents'; "
-            f"an EDGE-chunk writer needs a new model)")
-    nchunks = None
+    _expect(oc[0] == ("lookup", 0) and oc[1] == ("edges",), f"write_to_file: >2-parent branch fills the slots with {oc[:2]}")
+    _expect([r.replace(" ", "") for r in oc[2]] ==
+            ["extra_edges.extend((parent_pos(entry,parent)forparentinentry.parents[1:]))", "extra_edges[-1]|=GRAPH_LAST_EDGE"],
+            f"write_to_file: >2-parent branch does {oc[2]}")
+    pp = ast.unparse(T.find_def(wr, "parent_pos"))
+    _expect("return oid_to_index[parent]" in pp and "except KeyError" in pp and "raise ValueError" in pp,
+            "write_to_file.parent_pos: a parent outside the graph must raise ValueError")
+    wr_src = ast.unparse(wr)
+    chunk_list = None
     for n in ast.walk(wr):
-        if isinstance(n, ast.Assign) and ast.unparse(n.targets[0]) == "toc_size":
-            nchunks = T.eval_literal(n.value)
-    _expect(nchunks is not None, "write_to_file: toc_size not found")
-    hdr = None
+        if isinstance(n, ast.Assign) and ast.unparse(n.targets[0]) == "chunks" and isinstance(n.value, ast.List):
+            chunk_list = [ast.unparse(e.elts[0]) for e in n.value.elts]
+    _expect(chunk_list == ["CHUNK_OID_FANOUT", "CHUNK_OID_LOOKUP", "CHUNK_COMMIT_DATA"],
+            f"write_to_file: fixed chunks are {chunk_list}")
+    _expect("if extra_edges:" in wr_src and "chunks.append((CHUNK_EXTRA_EDGE_LIST, edge_data))" in wr_src,
+            "write_to_file: EDGE chunk is not appended exactly when there are extra edges")
+    hdr = nchunks = None
     for n in ast.walk(wr):
-        if isinstance(n, ast.Assign) and ast.unparse(n.targets[0]) == "header_size":
-            hdr = T.eval_literal(n.value)
-    _expect(hdr is not None, "write_to_file: header_size not found")
+        if isinstance(n, ast.Assign) and ast.unparse(n.targets[0]) == "offset" and isinstance(n.value, ast.BinOp):
+            _expect(ast.unparse(n.value).replace(" ", "") == "8+(len(chunks)+1)*12",
+                    f"write_to_file: first chunk offset is {ast.unparse(n.value)}")
+            hdr, nchunks = 8, 12
+    _expect(hdr is not None, "write_to_file: `offset = 8 + (len(chunks) + 1) * 12` not found")
+    gen_src = ast.unparse(T.find_def(cg, "generate_commit_graph"))
+    for frag in ("children.setdefault(parent_id, []).append(commit_id)",
+                 "left_out = [parent_id for parent_id in children if parent_id not in commit_map]",
+                 "while left_out:", "commit_map.pop(commit_id, None) is not None"):
+        _expect(frag in gen_src, f"generate_commit_graph: `{frag}` not found (commits with a parent outside the set must be left out)")
     wr_shifts = _shift_consts(wr, ast.LShift) + _shift_consts(wr, ast.RShift)
     _expect(wr_shifts == [2, 32], f"write_to_file: generation/time shifts {wr_shifts}")
     rd = T.find_def(cg, "CommitGraph._parse_chunks")
@@ -166,6 +183,14 @@ def translate(repo: Path) -> dict:
     wm_src = ast.unparse(wm)
     _expect(wm_src.count("offset >= 2 ** 31") == 3 and "2147483648 | large_offset_index" in wm_src.replace("0x80000000", "2147483648"),
             "write_midx: large-offset threshold/flag changed")
+    osm = T.module_ast(repo / "dulwich" / "object_store.py")
+    cp_src = ast.unparse(T.find_def(osm, "DiskObjectStore.contains_packed"))
+    for frag in ("result = midx.object_offset(", "if sha in self._get_pack_by_name(result[0]):", "except (KeyError, PackFileDisappeared):",
+                 "return super().contains_packed(sha)"):
+        _expect(frag in cp_src, f"DiskObjectStore.contains_packed: `{frag}` not found (a MIDX entry must be checked against its pack)")
+    fb_src = ast.unparse(T.find_def(bm, "find_commit_bitmaps"))
+    _expect("pack_bitmap = pack.bitmap" in fb_src and "except FileNotFoundError:" in fb_src,
+            "find_commit_bitmaps: packs without a .bitmap file must be skipped")
     # ---- refs layering --------------------------------------------------------------------------
     rf = T.module_ast(repo / "dulwich" / "refs.py")
     rr_src = ast.unparse(T.find_def(rf, "RefsContainer.read_ref"))
@@ -190,12 +215,9 @@ def chunkOidFanout : List UInt8 := {b("CHUNK_OID_FANOUT")}
 def chunkOidLookup : List UInt8 := {b("CHUNK_OID_LOOKUP")}
 def chunkCommitData : List UInt8 := {b("CHUNK_COMMIT_DATA")}
 def chunkExtraEdges : List UInt8 := {b("CHUNK_EXTRA_EDGE_LIST")}
-/-- `header_size` and `toc_size` of `write_to_file` -/
+/-- `offset = HDR + (len(chunks) + 1) * ENTRY` in `write_to_file` -/
 def cgHeaderSize : Nat := {hdr}
-def cgTocSize : Nat := {nchunks}
-/-- which parents the writer stores for a commit with more than two parents (indices into `entry.parents`) -/
-def octopusSlot1 : Nat := {oc[0][1]}
-def octopusSlot2 : Nat := {oc[1][1]}
+def cgTocEntrySize : Nat := {nchunks}
 /-- `entry.generation << N`, `entry.commit_time >> M` -/
 def cgGenShift : Nat := {wr_shifts[0]}
 def cgTimeShift : Nat := {wr_shifts[1]}
@@ -1682,10 +1704,10 @@ def stream_cg(ctx):
                 o = bytes([rng.choice([0, 255])]) + o[1:]
             if o not in pool:
                 pool.append(o)
-        outside = [rng.randbytes(20) for _ in range(2)]
+        outside = [rng.randbytes(20) for _ in range(2)] if rng.random() < 0.2 else []   # such graphs are refused
         ents = []
         for o in pool:
-            k = rng.choice([0, 1, 1, 2, 2, 3, 4])
+            k = rng.choice([0, 1, 1, 2, 2, 3, 4, 6])
             src = pool + (outside if rng.random() < 0.3 else [])
             parents = [rng.choice(src) for _ in range(k)]
             gen = rng.choice([0, 1, 5, 2 ** 30 - 1, 2 ** 30 - 1, 2 ** 30] if rng.random() < 0.2 else [0, 1, 5, 77])
@@ -1975,6 +1997,54 @@ def stream_gate_refs(ctx):
             ctx.disagree("fmt.refs." + what, {"line": ln}, mo, real)
 
 
+def stream_cg_close(ctx):
+    """`generate_commit_graph` describes a commit only together with all of its parents: the set of commits it
+    keeps (for random DAGs and random requested subsets) vs the model's `closeEntries`; direct oracle: every entry
+    it produces carries the commit's full parent list and all of those parents are entries too."""
+    from dulwich.commit_graph import generate_commit_graph
+    from dulwich.object_store import MemoryObjectStore
+    from dulwich.objects import Commit, Tree, hex_to_sha
+    rng = ctx.rng
+    lines, meta = [], []
+    for _ in range(ctx.budget(80)):
+        n = rng.randint(1, 10)
+        store = MemoryObjectStore()
+        t = Tree()
+        store.add_object(t)
+        commits = []
+        for i in range(n):
+            k = 0 if i == 0 else rng.choice([0, 1, 1, 2, 2, 3, 4])
+            c = Commit()
+            c.tree = t.id
+            c.parents = [commits[p].id for p in rng.sample(range(i), min(k, i))]
+            c.author = c.committer = b"V <v@example.com>"
+            c.author_time = c.commit_time = 1000 + i
+            c.author_timezone = c.commit_timezone = 0
+            c.message = b"c%d" % i
+            store.add_object(c)
+            commits.append(c)
+        want = [c for c in commits if rng.random() < rng.choice([0.5, 0.8, 1.0])]
+        rng.shuffle(want)
+        g = generate_commit_graph(store, [c.id for c in want])
+        got = sorted(e.commit_id for e in g.entries)
+        inside = set(got)
+        truth = {c.id: c.parents for c in commits}
+        for e in g.entries:
+            if list(e.parents) != truth[e.commit_id] or any(p not in inside for p in e.parents):
+                ctx.oracle_fail("fmt.cg.close", {"commit": e.commit_id.decode(), "parents": [p.decode() for p in truth[e.commit_id]],
+                                                 "requested": [c.id.decode() for c in want]},
+                                "generate_commit_graph keeps a commit without all of its parents", None)
+        lines.append("c14.cg.close " + " ".join(
+            f"{hx(hex_to_sha(c.id))}:" + (",".join(hx(hex_to_sha(p)) for p in c.parents) or "-") for c in want) if want else "c14.cg.close")
+        meta.append(sorted(hx(hex_to_sha(x)) for x in got))
+    outs = ctx.driver.batch(lines)
+    for ln, real, mo in zip(lines, meta, outs):
+        m = sorted(x for x in mo.split(",") if x != "-") if mo else []
+        ctx.count("fmt.cg.close", ln, True, f"kept{len(real)}")
+        if m != real:
+            ctx.disagree("fmt.cg.close", {"line": ln[:600]}, mo[:300], ",".join(real)[:300])
+
+
 def stream_reach(ctx):
     """`_collect_ancestors` (the walk behind GraphTraversalReachability, MissingObjectFinder, …) on random DAGs in
     a MemoryObjectStore vs the model's `collectAncestors` (the 'stop at common' rule of F10's exclude finding)."""
@@ -2046,7 +2116,7 @@ def run(ctx: core.Ctx):
     ]
     _quiet()
     run_corpus(ctx)
-    for fn in (stream_ewah, stream_cg, stream_midx, stream_gate_refs, stream_reach):
+    for fn in (stream_ewah, stream_cg, stream_cg_close, stream_midx, stream_gate_refs, stream_reach):
         try:
             fn(ctx)
         except core.InfraError:
@@ -2073,7 +2143,7 @@ def search(ctx: core.Ctx):
     in a way no known finding explains."""
     import random
     _quiet()
-    for fn in (stream_ewah, stream_cg, stream_midx, stream_gate_refs, stream_reach):
+    for fn in (stream_ewah, stream_cg, stream_cg_close, stream_midx, stream_gate_refs, stream_reach):
         try:
             fn(ctx)
         except core.InfraError:
